@@ -23,6 +23,7 @@ func init() {
 			"R3 hand-off block order (ESP on the hand-off builder — the function of package ovmf that writes an EFIHOBHandoffInfoTable): hand-off table → descriptors of the private (declared) resources → descriptors of the unaccepted resources → end-of-list marker → zero padding, and the buffer has no other writer. " +
 			"R4 table agreement: the section-type switches of the metadata validator and of the parser accept the same set of constants and both reject every other type. " +
 			"R5 sweep cursor: in the RAM-minus-sections sweep (the two-list function of package ovmf), every advance of the section cursor that is shared by all RAM banks is dominated, within the iteration, by the edge `section empty` or `value computed from the section <= a field of the current bank` — the invariant the function states in its own comment; this decides that one clause of the interval subtraction, not the subtraction. " +
+			"R6 (= C06.R8, TDX constructs) the launch options of each measurement inside the shape loop are set in that iteration: a legacy/early-accept setting does not leak into another configuration's MRTD. " +
 			"Not covered: the SHA-384 stream contents, the interval subtraction that derives unaccepted memory, RAM-bank table values (numeric clauses).",
 		Assumptions: []string{"go/types, go/ssa, VTA call graph"},
 		Run:         runC05,
@@ -30,6 +31,11 @@ func init() {
 }
 
 func runC05(c *Ctx) {
+	// R6 = C06.R8 on the TDX side: each golden MRTD is computed with the launch options of the configuration
+	// it is labelled with (no setting left over from another loop iteration).
+	c.borrow("R6/C06.", runC06, func(rule, construct string) bool {
+		return (rule == "R8" || rule == "R7") && strings.Contains(construct, "tdx.")
+	})
 	abiPkg := repoPath("ovmf/abi")
 	sl := flow.NewSlicer(c.P)
 	// ---------------- R1 ----------------
